@@ -9,6 +9,7 @@ import (
 	"strings"
 
 	"golang.org/x/tools/go/packages"
+	"golang.org/x/tools/go/ssa"
 )
 
 func init() {
@@ -395,20 +396,49 @@ func (c *Ctx) checkSMCodec(sm *StateMachine) {
 	if tagParam == nil {
 		c.Undecided("%s.NewMsgFromCbor: cannot identify the message type parameter", sm.Pkg)
 	}
-	vals, hasDefault, defBody, found := switchCaseConsts(p.TypesInfo, fd.Body, func(e ast.Expr) bool {
+	swBody, swTag, helper := c.tagSwitchOwner(p, fd, tagParam, 2)
+	vals, hasDefault, defBody, found := switchCaseConsts(p.TypesInfo, swBody, func(e ast.Expr) bool {
 		id, ok := unparen(e).(*ast.Ident)
-		return ok && p.TypesInfo.Uses[id] == tagParam
+		return ok && p.TypesInfo.Uses[id] == swTag
 	})
 	if !found {
 		c.Undecided("%s.NewMsgFromCbor: no switch on the message type parameter", sm.Pkg)
 	}
 	defErr := false
-	for _, s := range defBody {
-		if r, ok := s.(*ast.ReturnStmt); ok && len(r.Results) == 2 {
-			if id, ok := unparen(r.Results[1]).(*ast.Ident); !(ok && id.Name == "nil") {
-				defErr = true
+	if helper == nil {
+		for _, s := range defBody {
+			if r, ok := s.(*ast.ReturnStmt); ok && len(r.Results) == 2 {
+				if id, ok := unparen(r.Results[1]).(*ast.Ident); !(ok && id.Name == "nil") {
+					defErr = true
+				}
 			}
 		}
+	} else {
+		// the switch lives in a helper that yields nil for an unknown tag; the caller must turn nil into an error:
+		// every return of a message with a nil error lies behind the helper-result != nil edge
+		defNil := false
+		for _, s := range defBody {
+			if r, ok := s.(*ast.ReturnStmt); ok && len(r.Results) == 1 {
+				if id, ok := unparen(r.Results[0]).(*ast.Ident); ok && id.Name == "nil" {
+					defNil = true
+				}
+			}
+		}
+		fn := c.SSAOf(fobj)
+		var sinks []ssa.Instruction
+		for _, r := range successReturns(fn) {
+			if !isNilConst(r.(*ssa.Return).Results[0]) {
+				sinks = append(sinks, r)
+			}
+		}
+		hk := "call:" + ssaFuncKey(c.SSAOf(helper)) + "("
+		all := len(sinks) > 0
+		for _, v := range c.mustPass(fn, sinks, func(f string) bool { return strings.HasPrefix(f, hk) && strings.HasSuffix(f, ") != nil") }) {
+			if !v.OK {
+				all = false
+			}
+		}
+		defErr = defNil && all
 	}
 	c.Check(hasDefault && defErr, "sm-codec-default", sm.Pkg, fd.Pos(), "unknown message types return an error", "NewMsgFromCbor default case does not return an error")
 	for _, id := range sm.sortedIDs() {
